@@ -38,7 +38,7 @@ STUBS = ["round in grid.path: forks over the integer candidates of a symbolic re
 
 LAT = np.array([[1.0, 0.0, 0.0], [0.2, 1.1, 0.0], [0.1, 0.3, 0.9]])
 PG = PS.PointGroup([], real_lattice=LAT)                        # tabulation cases (concrete k-points)
-RECIP = np.array([[1.0, 0.0, 0.0], [0.5, 1.5, 0.0], [0.25, 0.5, 2.0]])   # construction cases: a triclinic reciprocal lattice with short binary fractions (keeps the z3 polynomials small)
+RECIP = np.array([[1.0, 0.0, 0.0], [0.5, 2.0, 0.0], [0.25, 0.5, 0.5]])   # construction cases: a triclinic reciprocal lattice with short binary fractions (keeps the z3 polynomials small)
 NMAX_ROUND = 6
 
 
@@ -375,6 +375,15 @@ def case_sym(rec, kind, P):
     for nm, (t, shp) in specs(kind, P).items():
         if nm == "nodes":
             X[nm] = symvec("n", shp, lo=-0.5, hi=0.5)
+            if P.get("cartesian"):
+                # same generality, friendlier atoms: node_0 = atoms, node_i = node_{i-1} + t_i . B^-1 with t_i the cartesian step (atoms); |step|^2 = t.t
+                Binv = [[Fr(x) for x in row] for row in np.linalg.inv(RECIP)]
+                assert np.allclose(np.array(Binv, dtype=float) @ RECIP, np.eye(3), atol=0) , "inverse lattice must be exact"
+                t = X[nm]
+                rows = [t[0]]
+                for i in range(1, shp[0]):
+                    rows.append(sarr([rows[-1][c] + sum(t[i, a] * Binv[a][c] for a in range(3)) for c in range(3)]))
+                X[nm] = sarr(np.array(rows, dtype=object))
         else:
             X[nm] = SymC.var(nm)
             ass.append(X[nm].zreal() > 0)
@@ -443,11 +452,11 @@ def _cases(tier, seed):
     for pat, nk, labels in nk_cases:
         P = dict(pattern=pat, nnodes=pat.count("N"), mode="nk", nk=nk, labels=labels, factors=[1, 2, 3] if q else [1, 2, 3, 4], explicit_factor=len(pat) % 2 == 0, thresholds=["inf"])
         out.append(Case(f"from_nodes {pat} nk={nk} labels={labels}", case_sym, dict(kind="nodes", P=P), timeout=900))
-    for pat, mode, dk in [("NN", "dk", 1.5), ("NNN", "length", 1.5), ("NN-N", "dk", 1.25)] + ([] if q else [("NNN", "dk", 1.0), ("N-NN", "length", 1.25)]):
-        P = dict(pattern=pat, nnodes=pat.count("N"), mode=mode, dk=dk, labels=None, factors=[2], thresholds=["inf"])
+    for pat, mode, dk in [("NN", "dk", 0.375), ("NNN", "length", 0.375), ("NN-N", "dk", 0.3125)] + ([] if q else [("NNN", "dk", 0.25), ("N-NN", "length", 0.3125)]):
+        P = dict(pattern=pat, nnodes=pat.count("N"), mode=mode, dk=dk, labels=None, factors=[2], thresholds=["inf"], cartesian=True)
         out.append(Case(f"from_nodes {pat} {mode}={dk if mode == 'dk' else 2 * np.pi / dk:.4f} (symbolic segment length decides nk)", case_sym, dict(kind="nodes", P=P), timeout=900))
-    for n, labs, brk in [(3, {0: "a", 2: "c"}, []), (4, {1: "x", 3: "y"}, [1]), (4, {}, [0, 2])] + ([] if q else [(5, {0: "a", 2: "b", 4: "c"}, [1, 3]), (5, {4: "z"}, [3])]):
-        P = dict(nnodes=n, labels_at={str(k): v for k, v in labs.items()}, breaks=brk, factors=[1, 2, 3], thresholds=["inf", "thr"] if n <= (3 if q else 4) else ["inf"])
+    for n, labs, brk in [(3, {0: "a", 2: "c"}, []), (4, {1: "x", 3: "y"}, [1]), (4, {2: "m"}, [0, 2])] + ([] if q else [(5, {0: "a", 2: "b", 4: "c"}, [1, 3]), (5, {4: "z"}, [3])]):
+        P = dict(nnodes=n, labels_at={str(k): v for k, v in labs.items()}, breaks=brk, factors=[1, 2, 3], thresholds=["inf", "thr"] if n <= 4 else ["inf"], cartesian=True)
         out.append(Case(f"direct path n={n} labels={labs} breaks={brk} (refine, Kline with symbolic break_thresh)", case_sym, dict(kind="direct", P=P), timeout=900))
     # tabulation
     maxall = 4 if q else 5
